@@ -1233,6 +1233,30 @@ def r6_levels(ctx, ci, rule):
                 for gen in x_.generators:
                     level_loops.append(_L(gen.target, gen.iter, x_))
         for lp_ in level_loops:
+            # iterating the level dictionary itself: whatever keys it holds
+            it_ = lp_.iter
+            while isinstance(it_, ast.Call) and it_.args and \
+                    norm(it_.func) in ("sorted", "list", "iter", "reversed",
+                                       "enumerate"):
+                it_ = it_.args[0]
+            if isinstance(it_, ast.Call) and \
+                    isinstance(it_.func, ast.Attribute) and \
+                    it_.func.attr in ("items", "keys", "values"):
+                it_ = it_.func.value
+            whole = (isinstance(it_, ast.Attribute) and
+                     it_.attr == "pixeldict" and norm(it_.value) == "self") \
+                or (isinstance(it_, ast.Name) and al.get(it_.id) == "self")
+            if whole:
+                cnt += 1
+                ctx.check(rule, fi, "level coverage of " + norm(lp_.iter, 50),
+                          False, "iterates whatever keys the level "
+                          "dictionary holds instead of the levels "
+                          "1..maxdepth: add_pixels creates a key for any "
+                          "depth it is given (0, or beyond maxdepth), which "
+                          "every query ignores -- this output would include "
+                          "those pixels, so the export no longer describes "
+                          "the region's membership", node=lp_.scope)
+                continue
             if not isinstance(lp_.target, ast.Name):
                 continue
             rb = _range_bounds(lp_.iter)
